@@ -112,28 +112,88 @@ package elastic
 //@ define rkeep(mb) = elen(mb.ringBuffer) >= old(elen(mb.ringBuffer)) && (forall k int :: (0 <= k && k < old(elen(mb.ringBuffer))) ==> eat(mb.ringBuffer, k) == old(eat(mb.ringBuffer, k)))
 //@ define rsame(mb) = elen(mb.ringBuffer) == old(elen(mb.ringBuffer)) && (forall k int :: (0 <= k && k < elen(mb.ringBuffer)) ==> eat(mb.ringBuffer, k) == old(eat(mb.ringBuffer, k)))
 
+// The whole buffer: ring bytes first, then the chunks of the list. mwf is the representation invariant.
+//@ define mwf(mb) = ewf(mb.ringBuffer) && linkedlist.lwf(mb.listBuffer)
+//@ define mtotal(mb) = elen(mb.ringBuffer) + mb.listBuffer.bytes
+
+//@ func Buffer.Buffered
+//@   props C19
+//@   flags pure
+//@   requires mwf(mb)
+//@   ensures[total] result == mtotal(mb)
+
+// Discard drops min(n, Buffered()) bytes: from the ring first (its remaining bytes keep their order), and only what
+// the ring could not supply from the list (by linkedlist.Discard's clauses); a list is never touched while the ring
+// still holds bytes.
+//@ func Buffer.Discard
+//@   props C01 C10 C19
+//@   modifies mb.pending, RingBuffer.rb, ring.Buffer.r, ring.Buffer.w, ring.Buffer.isEmpty, linkedlist.Buffer.head, linkedlist.Buffer.tail, linkedlist.Buffer.size, linkedlist.Buffer.bytes, linkedlist.node.next, linkedlist.node.buf
+//@   requires mwf(mb)
+//@   ensures[wf] mwf(mb)
+//@   ensures[count] discarded == imin(imax(n, 0), old(mtotal(mb)))
+//@   ensures[ring.len] elen(mb.ringBuffer) == old(elen(mb.ringBuffer)) - imin(imax(n, 0), old(elen(mb.ringBuffer)))
+//@   ensures[ring.view] forall k int :: 0 <= k && k < elen(mb.ringBuffer) ==> eat(mb.ringBuffer, k) == old(eat(mb.ringBuffer, k + imin(imax(n, 0), elen(mb.ringBuffer))))
+//@   ensures[list.kept] n <= old(elen(mb.ringBuffer)) ==> linkedlist.lunchanged(mb.listBuffer)
+//@   ensures[list.dropped] n > old(elen(mb.ringBuffer)) ==> linkedlist.ldropped(mb.listBuffer, discarded - old(elen(mb.ringBuffer)))
+
+// Peek(n) hands out, without removing anything, slices that spell a prefix of the buffered bytes in order: the ring's
+// two parts when they already hold n bytes, otherwise the non-empty ring parts followed by the slices of the first list
+// chunks (linkedlist.PeekWithBytes: as many as needed to reach n, all of them when the buffer holds less).
+//@ define pmax(n) = ite(n <= 0, 2147483647, n)
+//@ define nz(x) = ite(len(x) > 0, 1, 0)
+//@ func Buffer.Peek
+//@   props C01 C10 C19
+//@   modifies linkedlist.Buffer.bs, capmem(mb.listBuffer.bs)
+//@   requires mwf(mb)
+//@   label P at call Buffer.PeekWithBytes#0
+//@   ensures[kept] ewf(mb.ringBuffer) && elen(mb.ringBuffer) == old(elen(mb.ringBuffer)) && linkedlist.lunchanged(mb.listBuffer)
+//@   ensures[ring.only@C01,C10,C19] elen(mb.ringBuffer) >= pmax(n) ==> (!reached(P) && len(result) == 2 && len(result[0]) + len(result[1]) == pmax(n)
+//@       && (forall k int :: 0 <= k && k < len(result[0]) ==> result[0][k] == eat(mb.ringBuffer, k))
+//@       && (forall k int :: 0 <= k && k < len(result[1]) ==> result[1][k] == eat(mb.ringBuffer, len(result[0]) + k)))
+//@   ensures[spill@C01,C10,C19] elen(mb.ringBuffer) < pmax(n) ==> reached(P)
+//@   ensures[spill.ring@C01,C10,C19] forall h []byte, t []byte :: (reached(P) && h == atlabel(P, head) && t == atlabel(P, tail)) ==> (len(h) + len(t) == elen(mb.ringBuffer)
+//@       && (forall k int :: 0 <= k && k < len(h) ==> h[k] == eat(mb.ringBuffer, k)) && (forall k int :: 0 <= k && k < len(t) ==> t[k] == eat(mb.ringBuffer, len(h) + k))
+//@       && (len(h) > 0 ==> (len(result) >= 1 && result[0] == h)) && (len(t) > 0 ==> (len(result) >= nz(h) + 1 && result[nz(h)] == t)))
+//@   ensures[spill.list@C01,C10,C19] forall h []byte, t []byte :: (reached(P) && h == atlabel(P, head) && t == atlabel(P, tail)) ==> (nz(h) + nz(t) <= len(result)
+//@       && (forall q int :: nz(h) + nz(t) <= q && q < len(result) ==> result[q] == linkedlist.lnn(mb.listBuffer, q - nz(h) - nz(t)).buf)
+//@       && (len(result) - nz(h) - nz(t) == mb.listBuffer.size || elen(mb.ringBuffer) + linkedlist.lsm(mb.listBuffer, len(result) - nz(h) - nz(t)) >= pmax(n))
+//@       && (len(result) - nz(h) - nz(t) > 0 ==> elen(mb.ringBuffer) + linkedlist.lsm(mb.listBuffer, len(result) - nz(h) - nz(t) - 1) < pmax(n)))
+
+// Write: the bytes of p go behind everything buffered: a first part (possibly empty, possibly all) behind the ring's
+// bytes, and the rest as one new last chunk of the list; the ring gets nothing while the list holds older bytes.
+//@ define rgrow(mb) = elen(mb.ringBuffer) - old(elen(mb.ringBuffer))
 //@ func Buffer.Write
 //@   props C01 C02 C10 C19
-//@   requires ewf(mb.ringBuffer) && (mb.ringBuffer.rb == nil || p.base != mb.ringBuffer.rb.buf.base)
+//@   requires mwf(mb) && (mb.ringBuffer.rb == nil || p.base != mb.ringBuffer.rb.buf.base)
 //@   ensures[wf] ewf(mb.ringBuffer)
+//@   ensures[wf.list] linkedlist.lwf(mb.listBuffer)
+//@   ensures[count] n == len(p) && err == nil
+//@   ensures[total@C01,C02,C10,C19] mtotal(mb) == old(mtotal(mb)) + len(p)
+//@   ensures[ring.data@C01,C02,C10,C19] 0 <= rgrow(mb) && rgrow(mb) <= len(p) && (forall k int :: (0 <= k && k < rgrow(mb)) ==> eat(mb.ringBuffer, old(elen(mb.ringBuffer)) + k) == old(p[k]))
+//@   ensures[list.keep@C01,C02,C10,C19] linkedlist.lkeep(mb.listBuffer)
+//@   ensures[list.data@C01,C02,C10,C19] rgrow(mb) < len(p) ==> linkedlist.lastis(mb.listBuffer, p[rgrow(mb):])
+//@   ensures[list.none@C01,C02,C10,C19] rgrow(mb) == len(p) ==> mb.listBuffer.size == old(mb.listBuffer.size)
 //@   ensures[order@C01,C02,C10,C19] old(mb.listBuffer.head) != nil ==> rsame(mb)
 //@   ensures[append@C01,C02,C10,C19] rkeep(mb)
 
 //@ define srcok(mb, bs) = forall j int :: (0 <= j && j < len(bs)) ==> (allocated(bs[j].base) && (mb.ringBuffer.rb == nil || bs[j].base != mb.ringBuffer.rb.buf.base))
 
+//@ define lgrown(mb) = linkedlist.lwf(mb.listBuffer) && mb.listBuffer.size >= old(mb.listBuffer.size) && linkedlist.lkeep(mb.listBuffer)
 //@ func Buffer.Writev
 //@   props C01 C02 C10 C19
-//@   requires ewf(mb.ringBuffer) && srcok(mb, bs) && mb.maxStaticBytes > 0
+//@   requires mwf(mb) && srcok(mb, bs) && mb.maxStaticBytes > 0
 //@   ensures[wf] ewf(mb.ringBuffer)
+//@   ensures[wf.list] linkedlist.lwf(mb.listBuffer)
 //@   ensures[order@C01,C02,C10,C19] old(mb.listBuffer.head) != nil ==> rsame(mb)
 //@   ensures[append@C01,C02,C10,C19] rkeep(mb)
+//@   ensures[list.keep@C01,C02,C10,C19] mb.listBuffer.size >= old(mb.listBuffer.size) && linkedlist.lkeep(mb.listBuffer)
 //@   loop 0
-//@     invariant ewf(mb.ringBuffer) && rsame(mb) && 0 <= rangeindex + 1 && rangeindex + 1 <= len(bs)
+//@     invariant ewf(mb.ringBuffer) && rsame(mb) && 0 <= rangeindex + 1 && rangeindex + 1 <= len(bs) && lgrown(mb)
 //@   loop 1
 //@     invariant ewf(mb.ringBuffer) && old(mb.listBuffer.head) == nil && 0 <= rangeindex + 1 && rangeindex + 1 <= len(bs) && pos == imax(rangeindex, 0) && writable >= 0
-//@     invariant rkeep(mb)
+//@     invariant rkeep(mb) && lgrown(mb)
 //@     invariant forall j int :: (0 <= j && j < len(bs)) ==> allocated(bs[j].base)
 //@     invariant forall j int :: (0 <= j && j < len(bs)) ==> (mb.ringBuffer.rb == nil || bs[j].base != mb.ringBuffer.rb.buf.base)
 //@   loop 2
 //@     invariant ewf(mb.ringBuffer) && old(mb.listBuffer.head) == nil && 0 <= pos
-//@     invariant rkeep(mb)
+//@     invariant rkeep(mb) && lgrown(mb)
